@@ -397,3 +397,66 @@ def forall_loop(b, target):
                     pr = render(mir.subst(tr[0][2][1], lambda q: ("const", "$x", "?") if q == elem else None))
                     return render(src), pr, bn
     return None
+
+
+def strip_iter(t):
+    """the collection an iterator expression walks: drops .iter() / .into_iter() / .iter_mut() / in-place-mutation wrappers"""
+    while True:
+        if t[0] == "mutated":
+            t = t[1]
+        elif t[0] == "call" and len(t[2]) == 1 and mir._strip_generics(t[1]).rsplit("::", 1)[-1] in ("iter", "into_iter", "iter_mut"):
+            t = t[2][0]
+        else:
+            return t
+
+
+def elementwise_views(ctx, defn):
+    """Per-element views of a function that processes a collection element by element, whichever idiom it uses:
+      * `SRC.iter().map(|x| { effects; y }).collect()`  (lazy adaptor + closure), or
+      * `for x in SRC { effects; out.push(y) }`          (loop, also `.for_each(..)` after inlining).
+    Each view: {"source": rendered SRC, "calls": [(rendered call with the element written $x, canonical guard without the
+    iteration atom)], "yields": [rendered y]}.  Rules compare views, not idioms."""
+    views = []
+    b = ctx.ibody(defn)
+    X = ("const", "$x", "?")
+    for bi, t, tm in b.real_calls():
+        if tm[1].endswith("Iterator::map") and len(tm[2]) == 2 and tm[2][1][0] == "agg" and tm[2][1][1].startswith("closure:"):
+            cdef = tm[2][1][1][len("closure:"):]
+            if cdef not in ctx.facts.bodies:
+                continue
+            cb = ctx.ibody(cdef)
+
+            def rx(term, cl=tm[2][1]):
+                tt = mir.in_closure(ctx.facts, cl, term)
+                return render(mir.subst(tt, lambda q: X if q == ("cparam", 1) else None))
+            calls = [(rx(tm2), canon_guard(cb.guard(b2))) for b2, t2, tm2 in cb.real_calls()]
+            views.append({"kind": "map", "source": render(strip_iter(tm[2][0])), "calls": calls, "yields": [rx(cb.return_term())], "site": t["sp"]})
+    nexts = [(bi, t, tm) for bi, t, tm in b.real_calls() if tm[1].endswith("Iterator::next") and len(tm[2]) == 1]
+    for bn, t, nt in nexts:
+        elem = mir.mk_proj(nt, ("as:Some", "0"))
+
+        def in_loop(g):
+            return bool(g) and all(any(a[0] == "is" and a[1] == nt and a[2] == frozenset(["Some"]) for a in conj) for conj in g)
+
+        def strip(g):
+            return frozenset(frozenset(a for a in conj if not (a[0] == "is" and a[1] == nt)) for conj in g)
+
+        def rx(term):
+            def f(q):
+                if q == elem:
+                    return X
+                if q[0] == "proj" and q[1] == nt and q[2][:2] == ("as:Some", "0"):
+                    return mir.mk_proj(X, q[2][2:])
+                return None
+            return render(mir.subst(term, f))
+        calls, yields = [], []
+        for b2, t2, tm2 in b.real_calls():
+            if tm2 == nt or not in_loop(b.guard(b2)):
+                continue
+            if mir._strip_generics(tm2[1]).endswith("Vec::push") and len(tm2[2]) == 2:
+                yields.append(rx(tm2[2][1]))
+                continue
+            calls.append((rx(tm2), canon_guard(strip(b.guard(b2)))))
+        if calls or yields:
+            views.append({"kind": "loop", "source": render(strip_iter(nt[2][0])), "calls": calls, "yields": yields, "site": t["sp"]})
+    return views
